@@ -9,11 +9,11 @@ from checks import ddcommon
 
 META = {
     "title": "build configurations are observationally equivalent",
-    "technique": "Rocq proofs over the Gallina apply model generalised by every configuration parameter (node-id allocator = node store backend, operand order, apply-cache implementation incl. none, fork/join schedule of the parallel recursor with stale cache views): any two configurations return handles with the same value table and the same node count, the same cache-less/cached run even returns the identical table; observables are invariant under injective renaming of node ids and are a function of the denotation alone (node-count canonicity across tables). Correspondence: the harness is compiled once per cargo feature combination of the oxidd crate (index/pointer store x direct-mapped cache on/off x multi-threading on/off) and the same op scripts run on every build with 1, 2 and 8 workers; every run is checked against the extracted spec and the per-script digests (value tables, node counts, sat counts, variable order) must coincide",
+    "technique": "Rocq proofs over the Gallina apply model generalised by every configuration parameter (node-id allocator = node store backend, operand order, apply-cache implementation incl. none, fork/join schedule of the parallel recursor with stale cache views): any two configurations return handles with the same value table and the same node count for every operation and every operation list, the cached / cache-less runs even produce the identical table; observables and invariants (sem_edge, count_reach, wf_b, rc_exact_b) are invariant under injective renaming of node ids for all five kinds; the node count is a function of the denoted function across two tables. Correspondence: the harness is compiled once per cargo feature combination of the oxidd crate (index/pointer store x direct-mapped cache on/off x multi-threading on/off) and the same op scripts run on every build with 1, 2 and 8 workers; (1) every run is checked against the extracted spec and the per-script digests (value tables, node counts, sat counts, variable order) must coincide across builds and worker counts; (2) every run of a history over the model's API calls is compared, snapshot by snapshot, with the extracted run_ops under three model configurations",
     "category": "proof",
     "design_ref": "DESIGN.md section 5, C20",
-    "level_text": "Theorems in coq/Props/C20.v over coq/DD/ConfigApply.v (apply_not/apply_bin/apply_ite of the BDD kind parameterised by allocator, operand order, cache implementation and fork/join schedule; instance allocator=fresh_id, schedule=sequential is definitionally the model of C02/C06): (a) cache on (direct-mapped) / off / any lossy cache: identical table and edge per operation and for whole operation lists; (b) any two allocators / operand orders / schedules / caches: same value tables, same node counts, well-formed tables for whole operation lists (run_ops); observables invariant under every injective renaming of node ids for all five kinds (rename_snap: sem_edge, count_reach, wf_b); node count and value table are functions of the denoted function alone across two tables; (c) either evaluation order of the two recursive calls and stale cache views give the same result function, and the identical edge when it already exists. Tie to the code: the harness h_dd is built for the configurations cfg-default, cfg-pointer, cfg-index-nocache-st, cfg-pointer-nocache-mt (thorough: all 8 feature combinations) from /repo's working tree; the same cases (per kind bdd/bcdd/zbdd: all 256 three-variable functions built two ways, not/eval/node_count/cofactors of all, all 65536 ordered pairs for each of the 8 binary operators, sampled ite triples; random histories with gc/reorder/add_vars/quantification/substitution/sat_count; mtbdd histories on the index store; each history with 1, 2 and 8 workers) run on every build; each run is checked by the driver (extracted wf_b, rc_exact_b, sem_edge, count_reach, spec layer; tags C01 C02 C03 C05) and the digests of all result tables, node counts, sat counts and variable orders are compared across configurations and worker counts.",
-    "level_note": "Trusted: Coq kernel, extraction, OCaml driver, Rust harness, cargo feature resolution. The apply model and hence theorems (a),(c) and run_ops are for the BDD kind (BCDD/ZBDD/MTBDD apply rules are not modelled; for those kinds the configuration independence is carried by the renaming/canonicity theorems, which hold for all kinds, plus the correspondence run). The schedule model is fork/join granular (either order of the two closures of WorkerPool::join, stale cache view for the one that runs second); instruction-level interleaving of the concurrent unique table is C07's subject. gc/reordering are not operations of run_ops (C05/C08); they are exercised by the correspondence run on every configuration.",
+    "level_text": "Theorems in coq/Props/C20.v over coq/DD/ConfigApply.v (apply_not/apply_bin/apply_ite of the BDD kind and run_ops over API-call lists, parameterised by allocator, operand order, cache implementation and fork/join schedule; the instance allocator=fresh_id, schedule=sequential is the model of C02/C06, C20_seq_instance): (a) cache on (direct-mapped) / off / any lossy cache: identical table and edge per operation and identical tables for whole operation lists; (b) any two allocators / operand orders / schedules / caches: same value tables, same node counts, well-formed tables, per operation and for whole operation lists (C20_run_ops_observe); observables and the C03/C05 checkers invariant under every injective renaming of node ids for all five kinds (rename_snap); node count determined by the value table across two BDD tables; (c) either evaluation order of the two recursive calls and stale cache views give the same value table and node count, the identical edge when it already exists, and re-running under any other configuration in any later table returns the identical edge. Tie to the code: h_dd is built for cfg-default, cfg-pointer, cfg-index-nocache-st, cfg-pointer-nocache-mt (thorough: all 8 feature combinations) from /repo's working tree. (1) the same cases (per kind bdd/bcdd/zbdd: all 256 three-variable functions built two ways, not/eval/node_count/cofactors of all, all 65536 ordered pairs for each of the 8 binary operators, sampled ite triples; random histories with gc/reorder/add_vars/quantification/substitution/sat_count; mtbdd histories on the index store; histories with 1, 2 and 8 workers) run on every build; each run is checked by the DD driver (extracted wf_b, rc_exact_b, sem_edge, count_reach, spec layer; tags C01 C02 C03 C05) and the digests of all result tables, node counts, sat counts and variable orders are compared across builds x worker counts. (2) random histories over var/not_var/constants/not/8 binary operators/ite/clone/drop/node_count (2..8 variables) run on every build x {1,2,8} workers with a snapshot after every call; ocaml/c20_main.ml replays them on the extracted mstep under three model configurations (index-like store + no cache + sequential; address-like store + 4-bucket direct-mapped cache + every join to depth 3 swapped with stale caches; odd-id store + unbounded cache + mixed orders) and compares the observation (slots, value tables, node counts, order) of the real manager with each model state at every snapshot, node_count results with the model's count_reach, and evaluates rename_snap on the real tables.",
+    "level_note": "Trusted: Coq kernel, extraction, the two OCaml drivers, Rust harness, cargo feature resolution. The apply model and hence theorems (a), (c) and run_ops are for the BDD kind (BCDD/ZBDD/MTBDD/TDD apply rules are not modelled; for those kinds configuration independence is carried by the renaming theorems, which hold for all kinds, plus correspondence run (1)). The schedule model is fork/join granular (either order of the two closures of WorkerPool::join, stale cache view for the one that runs second); instruction-level interleaving inside the concurrent unique table / cache is C07's subject. The allocator is a function of the table (no hidden free-list state). gc and reordering are not operations of run_ops (C05/C08); they are exercised on every configuration by correspondence run (1).",
 }
 ALLOWED_AXIOMS = ()
 
